@@ -1,4 +1,5 @@
 pub mod c03;
+pub mod c04;
 pub mod common;
 
 use crate::engine::Tier;
@@ -8,6 +9,8 @@ pub fn run(prop: &str, tier: Tier, seed: u64) -> i32 {
     let findings = Findings::load();
     match prop {
         "C03" => c03::run(tier, seed, &findings),
+        "C04" => c04::run("C04", tier, seed, &findings),
+        "C05" => c04::run("C05", tier, seed, &findings),
         _ => {
             eprintln!("gev: unknown property {}", prop);
             2
@@ -28,6 +31,8 @@ pub fn replay(path: &str) -> i32 {
     let prop = v["property"].as_str().unwrap_or("").to_string();
     match prop.as_str() {
         "C03" => c03::replay(&v, path, &findings),
+        "C04" => c04::replay("C04", &v, path, &findings),
+        "C05" => c04::replay("C05", &v, path, &findings),
         _ => {
             eprintln!("gev: unknown property in replay file");
             2
